@@ -47,7 +47,18 @@ top of the variable range (65,533 / 65,534 / 65,535 variables) for `substitute`,
 selectors (the benign shape on which the pinned code meets C11), (xx) `write_as_dot_string` into a writer that accepts
 partial writes. A hang watchdog was added to the harness on the way (`HANG` outcome: a call that does not return within
 VERIF_HANG_SECS costs one case, not the shard) after `random_clause` looped for ever on a non-reduced diagram with a
-non-terminal false node (outside C11's quantifier, see §0).
+non-terminal false node (outside C11's quantifier, see §0); from the fifth wave (`*-w5-*`, 30 further adversarial changes that
+were told which trigger families are used up; 21 caught by the first run): (xxi) strict inclusions over 60..1000 variables
+whose two sides have the same count as doubles, judged by an exact product-walk implication oracle (`raw_implies`) instead
+of truth tables, (xxii) decision variables congruent modulo 256 / 1024 / 4096 / 32768 among thousands of variables, (xxiii)
+storms of consecutive calls inside ONE program so that state kept between calls and keyed by a hash of the arguments is
+hit by a colliding consecutive pair, (xxiv) `if_then_else` with operands related by negation, (xxv) results far larger than
+both operands together (symmetric functions over interleaved supports) with limits across the whole window, (xxvi) single
+edges skipping exactly 1020..1026 levels, (xxvii) non-ASCII whitespace read through chunks of 1..3 bytes, (xxviii)
+conditionals nested without parentheses, (xxix) the provided `Iterator` methods (`count`, `last`, `nth`, `size_hint`) on
+a partially consumed iterator and `next()` after the end; operands now include structured functions (symmetric,
+self-dual, flip-symmetric, cubes, multiplexers) one time in six. One seeded change (C11-w5-b4) is caught by the check of
+ANOTHER property than its author named (C17: it lives in `set_num_vars`).
 
 | seeded change | property | needs | caught | by |
 |---|---|---|---|---|
